@@ -207,6 +207,36 @@ def section_fault():
                 except BaseException as e:  # noqa: BLE001
                     fail("fault", "series not reusable after a fault", exc=exc.__name__, trigger=trigger, request=req, error=repr(e))
 
+    # exceptions raised by the built-in Sylvester solver (blocks sharing an eigenvalue): an undisturbed computation raises on every request that
+    # needs that solve, so must every retry on the same computation (the solver keeps a per-block-pair record of validated pairs)
+    import numpy as _np
+    from pymablock import block_diagonalize
+    from pymablock.block_diagonalization import solve_sylvester_diagonal
+    H0 = _np.diag([0.0, 1.0, 1.0, 2.0])
+    H1 = _np.array([[0, 1, 2, 1], [1, 0, 1, 3], [2, 1, 0, 1], [1, 3, 1, 0]], dtype=float) / 4
+    reqs = [(0, (0, 0, 2)), (1, (0, 1, 1)), (0, (0, 0, 2)), (2, (1, 0, 1)), (0, (1, 1, 2)), (1, (0, 1, 1))]
+    for variant in ("default", "explicit"):
+        def make():
+            kw = {} if variant == "default" else {"solve_sylvester": solve_sylvester_diagonal((_np.array([0.0, 1.0]), _np.array([1.0, 2.0])))}
+            return block_diagonalize([H0, H1], subspace_indices=[0, 0, 1, 1], **kw)
+
+        def outcome(outs, which, idx):
+            try:
+                v = outs[which][idx]
+                return "value"
+            except BaseException as e:  # noqa: BLE001
+                return type(e).__name__
+        cases += 1
+        try:
+            same = make()
+            got = [outcome(same, w, i) for w, i in reqs]
+            want = [outcome(make(), w, i) for w, i in reqs]
+            if got != want:
+                fail("fault", "after the built-in solver raised, later requests on the same computation do not behave like an undisturbed computation",
+                     variant=variant, got=got, want=want)
+        except BaseException as e:  # noqa: BLE001
+            fail("fault", "solver-exception scenario crashed", variant=variant, error=repr(e))
+
 
 # ------------------------------------------------------------------------------ C18
 def section_product():
@@ -300,7 +330,9 @@ def section_product():
 
 
 # ------------------------------------------------------------------------------ C12 / C10 through block_diagonalize
-def _lazy_problem(hermitian=True, nparam=2):
+def _lazy_problem(hermitian=True, nparam=2, symbols=None, recursive=False, blocked=False):
+    """symbols: names given to block_diagonalize that differ from the series' own dimension names; recursive: the user's eval builds order n from
+    its own lower orders (read through the series, i.e. through its cache); blocked: the series is given with a 2x2 block structure."""
     from pymablock import block_diagonalize
     rng = np.random.default_rng(5)
     n = 4
@@ -315,25 +347,62 @@ def _lazy_problem(hermitian=True, nparam=2):
         return terms[order]
     log = []
 
-    def ev(*order):
-        log.append(order)
+    def full(order):
         if sum(order) == 0:
             return h0
         if max(order) > 2:
             return zero
-        return term(order)
-    H = BlockSeries(eval=ev, shape=(), n_infinite=nparam)
-    out = block_diagonalize(H, subspace_indices=[0, 0, 1, 1], hermitian=hermitian)
+        t = term(order)
+        if recursive and order[0] > 0:
+            prev = Hfull[(order[0] - 1,) + tuple(order[1:])]     # the user's own series, read through its cache
+            if prev is not zero:
+                t = t + 0.25 * prev
+        return t
+
+    def ev(*order):
+        log.append(order)
+        return full(order)
+    kw = {"symbols": symbols} if symbols is not None else {}
+    if not blocked:
+        H = Hfull = BlockSeries(eval=ev, shape=(), n_infinite=nparam)
+        out = block_diagonalize(H, subspace_indices=[0, 0, 1, 1], hermitian=hermitian, **kw)
+        return H, out, log, terms
+    Hfull = BlockSeries(eval=lambda *order: full(order), shape=(), n_infinite=nparam)
+
+    def evb(i, j, *order):
+        log.append((i, j) + order)
+        if hermitian and i > j and sum(order):
+            up = H[(j, i) + order]                               # lower blocks from the user's own upper blocks
+            return zero if up is zero else up.conj().T
+        m = Hfull[order]
+        if m is zero or (i != j and not sum(order)):
+            return zero
+        return m[2 * i:2 * i + 2, 2 * j:2 * j + 2]
+    H = BlockSeries(eval=evb, shape=(2, 2), n_infinite=nparam)
+    out = block_diagonalize(H, hermitian=hermitian, **kw)
     return H, out, log, terms
 
 
 def section_lazy():
     global cases
-    for hermitian in (True, False):
-        H, (Ht, U, Ud), log, terms = _lazy_problem(hermitian)
+    import sympy as _sp
+    variants = [dict(), dict(symbols=[_sp.Symbol("alpha"), _sp.Symbol("beta")]), dict(recursive=True), dict(recursive=True, symbols=[_sp.Symbol("alpha"), _sp.Symbol("beta")]),
+                dict(blocked=True), dict(blocked=True, symbols=[_sp.Symbol("alpha"), _sp.Symbol("beta")]), dict(blocked=True, recursive=True, symbols=[_sp.Symbol("p"), _sp.Symbol("q")])]
+    for hermitian, var in [(h, v) for h in (True, False) for v in variants]:
+        try:
+            H, (Ht, U, Ud), log, terms = _lazy_problem(hermitian, **var)
+        except Exception as e:
+            fail("lazy", "block_diagonalize raised for a lazily defined series", hermitian=hermitian, variant={k: str(v) for k, v in var.items()}, error=repr(e)[:300])
+            continue
+        blocked = bool(var.get("blocked"))
+        if blocked:
+            # bring the log to order tuples; the same block may not be evaluated twice
+            if len(set(log)) != len(log):
+                fail("lazy", "Hamiltonian block evaluated more than once at definition time", hermitian=hermitian, variant=str(var))
         cases += 1
-        if any(sum(o) for o in log):
-            fail("lazy", "defining the block diagonalization evaluated a non-zeroth-order Hamiltonian term", hermitian=hermitian, evaluated=log)
+        strip = (lambda o: o[2:]) if blocked else (lambda o: o)
+        if any(sum(strip(o)) for o in log):
+            fail("lazy", "defining the block diagonalization evaluated a non-zeroth-order Hamiltonian term", hermitian=hermitian, evaluated=log, variant=str(var))
         requests = [(Ht, (0, 0, 1, 0)), (U, (0, 1, 1, 1)), (Ht, (0, 0, [2, 0], [0, 2])), (Ud, (1, 0, slice(None, 2), 1)), (Ht, (1, 1, 2, 1))]
         for ser, item in requests:
             cases += 1
@@ -348,10 +417,16 @@ def section_lazy():
                     box[a, b] = (a, b)
             req = np.atleast_1d(np.asarray(box[o1, o2], dtype=object)).ravel().tolist() if not isinstance(box[o1, o2], tuple) else [box[o1, o2]]
             for m in new:
-                if not any(all(mi <= ri for mi, ri in zip(m, r)) for r in req):
-                    fail("lazy", "Hamiltonian term evaluated at an order not below any requested order", hermitian=hermitian, request=item, evaluated=m)
+                if not any(all(mi <= ri for mi, ri in zip(strip(m), r)) for r in req):
+                    fail("lazy", "Hamiltonian term evaluated at an order not below any requested order", hermitian=hermitian, request=item, evaluated=m, variant=str(var))
             if len(set(log)) != len(log):
-                fail("lazy", "Hamiltonian term evaluated more than once", hermitian=hermitian, request=item, evaluated=log)
+                fail("lazy", "Hamiltonian term evaluated more than once", hermitian=hermitian, request=item, evaluated=log, variant=str(var))
+        # the caller reads the series afterwards: still at most once per term
+        cases += 1
+        for o in ([(1, 0), (0, 1), (1, 1)] if not blocked else [(0, 1, 1, 0), (1, 0, 1, 0), (0, 0, 0, 1)]):
+            H[o]
+        if len(set(log)) != len(log):
+            fail("lazy", "Hamiltonian term evaluated again when the caller reads the series it passed in", hermitian=hermitian, variant=str(var))
 
 
 def section_history():
